@@ -953,7 +953,10 @@ theorem step_doActionCore (w : World) (mid : Nat) (batch : Option Txn) (a : Acti
             rcases txnReplace_txn w { market := mid, client := _ } (tg.resolve w) price v force with h | h
             · exact Or.inl h
             · exact Or.inr (Or.inr (Or.inr (Or.inr ⟨v, h⟩)))) ho
-    | batchBegin c => exact ⟨hI, fun t ht => by rw [← Option.some.inj ht]; exact TOk.fresh w mid c⟩
+    | batchBegin c =>
+      cases batch with
+      | some t => exact ⟨(good_txnExit w t (fun _ => hB t rfl)).2 hI, fun t' ht' => by rw [← Option.some.inj ht']; exact TOk.fresh _ mid c⟩
+      | none => exact ⟨hI, fun t ht => by rw [← Option.some.inj ht]; exact TOk.fresh w mid c⟩
     | batchExecute =>
       cases batch with
       | some t =>
